@@ -11,9 +11,10 @@ PLAN = {
                 slices=["comp", "mark"], ref="§7 C02"),
     "C10": dict(families=[("comp", 36, 400)], oracle=lambda h: [f for f in T.oracle_components(h) if f[0] == "C10"],
                 slices=["comp"], ref="§7 C10"),
-    "C09": dict(families=[("comp", 30, 300), ("ent", 16, 160)],
-                oracle=lambda h: [f for f in (T.oracle_components(h) if h.family != "ent" else T.oracle_entities(h)) if f[0] == "C09"],
-                slices=["comp"], ref="§7 C09"),
+    "C09": dict(families=[("comp", 30, 300), ("ent", 16, 160), ("asset", 18, 180)],
+                oracle=lambda h: (T.oracle_asset_traffic(h) if h.family == "asset" else
+                                  [f for f in (T.oracle_components(h) if h.family != "ent" else T.oracle_entities(h)) if f[0] == "C09"]),
+                slices=["comp"], slice_families=("comp", "ent"), ref="§7 C09"),
     # join histories (new clients joining while others spawn / despawn): the entity-set part of the join oracle, for
     # newcomers and established clients (what a *returning* client keeps is C03's subject, finding D16)
     "C01": dict(families=[("ent", 40, 400), ("join", 12, 120)],
@@ -30,7 +31,9 @@ PLAN = {
     "C16": dict(families=[("skin", 30, 300)], oracle=lambda h: T.skin_cases(h)[1], slices=["skin"], ref="§7 C16"),
     "C03": dict(families=[("join", 36, 360)], oracle=lambda h: T.oracle_join(h), slices=["snapj"], ref="§7 C03"),
     "C07": dict(families=[("promo", 30, 300)], oracle=lambda h: T.oracle_promo(h), slices=["promo"], ref="§7 C07"),
-    "C06": dict(families=[("asset", 36, 360)], oracle=lambda h: T.oracle_assets(h), slices=["asset"], ref="§7 C06"),
+    "C06": dict(families=[("asset", 36, 360)],
+                oracle=lambda h: T.oracle_assets(h) + [("C06",) + f[1:] for f in T.oracle_asset_traffic(h) if "does not stop" in f[1]],
+                slices=["asset"], ref="§7 C06"),
     "C08": dict(families=[("fault", 240, 880)], oracle=lambda h: T.oracle_fault(h), slices=["fault"], ref="§7 C08"),
 }
 
